@@ -128,3 +128,34 @@ package optdec
 //@   loop 0: invariant start <= pos && pos <= len(json)
 //@   loop 0: invariant forall k int :: (start <= k && k < pos) ==> numCh(json[k])
 //@   loop 0: decreases len(json) - pos
+
+// ---- floats and booleans.  AsF64 (int/real node values and json.Number texts converted
+// by strconv) is abstract; what the functors add - the float32 range rule - is proved:
+// a number is accepted for a float32 destination exactly when its value ROUNDED to
+// float32 is finite (as encoding/json and the JIT decoder do), so the text that
+// Marshal(float32(math.MaxFloat32)) prints decodes.
+//@ pure func asF64ok(n Node, ctx *Context) bool
+//@ pure func asF64val(n Node, ctx *Context) float64
+//@ func Node.AsF64 assumed "int/real node values and strconv-parsed json.Number texts: a finite float64"
+//@   ensures r1 == asF64ok(val, ctx) && (r1 ==> (same(r0, asF64val(val, ctx)) && !isNaN(r0) && !isInf(r0)))
+//@ func (*f32Decoder).FromDom props C11,C19,C04
+//@   requires vp != nil
+//@   modifies *cast(*float32, vp)
+//@   ensures nType(node) == KNull ==> (result == nil && same(*cast(*float32, vp), old(*cast(*float32, vp))))
+//@   ensures nType(node) != KNull ==> ((result == nil) <==> (asF64ok(node, ctx) && !isInf(float32(asF64val(node, ctx)))))
+//@   ensures (nType(node) != KNull && result == nil) ==> same(*cast(*float32, vp), float32(asF64val(node, ctx)))
+//@ func (*f64Decoder).FromDom props C11,C19
+//@   requires vp != nil
+//@   modifies *cast(*float64, vp)
+//@   ensures nType(node) == KNull ==> (result == nil && same(*cast(*float64, vp), old(*cast(*float64, vp))))
+//@   ensures nType(node) != KNull ==> ((result == nil) <==> asF64ok(node, ctx))
+//@   ensures (nType(node) != KNull && result == nil) ==> same(*cast(*float64, vp), asF64val(node, ctx))
+//@ func Node.AsBool props C11
+//@   ensures r1 <==> (nType(val) == KTrue || nType(val) == KFalse)
+//@   ensures r1 ==> (r0 <==> nType(val) == KTrue)
+//@ func (*boolDecoder).FromDom props C11
+//@   requires vp != nil
+//@   modifies *cast(*bool, vp)
+//@   ensures nType(node) == KNull ==> (result == nil && *cast(*bool, vp) == old(*cast(*bool, vp)))
+//@   ensures nType(node) != KNull ==> ((result == nil) <==> (nType(node) == KTrue || nType(node) == KFalse))
+//@   ensures (nType(node) != KNull && result == nil) ==> (*cast(*bool, vp) <==> nType(node) == KTrue)
